@@ -928,6 +928,9 @@ package tree
 //@   ensures [index_maps_each_name_to_the_node_carrying_it] result1 == nil ==> result0 != nil && result0.index != nil && (forall s string :: {has(result0.index, s)} has(result0.index, s) ==> result0.index[s] != nil && result0.index[s].name == s)
 //@   loop 1
 //@     complete [all_iterations_no_early_exit]
+//@     assigns mapof(nodeindex.index)
+//@     invariant [a_fresh_table] nodeindex != nil && fresh(nodeindex) && nodeindex.index != nil && fresh(nodeindex.index)
+//@     invariant [every_entry_so_far_maps_a_name_to_a_node_carrying_it] forall s string :: {has(nodeindex.index, s)} {nodeindex.index[s]} has(nodeindex.index, s) ==> nodeindex.index[s] != nil && nodeindex.index[s].name == s
 
 // SortedTips: the tips (Tips) sorted by name in fresh storage (sort.Slice: trusted permutation)
 // SortedTips (property C18): the list of this tree's tips, reordered in place by a comparison of the names of the two
@@ -1906,3 +1909,199 @@ package tree
 //@   requires e != nil
 //@   assigns e.support
 //@   ensures [absent_counts_as_zero_then_the_amount_is_added] e.support == (old(e.support) == -1.0 ? 0.0 : old(e.support)) + support
+
+// Small accessors, stated exactly (properties C03, C04, C09): they are used everywhere, so a slip in one of them is a slip
+// in every property
+//@ func (*tree.Tree).Rooted
+//@   requires t != nil && t.root != nil
+//@   assigns nothing
+//@   ensures [rooted_means_exactly_two_neighbours_at_the_root] result == (len(t.root.neigh) == 2)
+//@ func (*tree.Tree).TipIndex
+//@   requires t != nil
+//@   entry [every_indexed_name_leads_to_a_node] forall s string :: {has(t.tipIndex, s)} has(t.tipIndex, s) ==> t.tipIndex[s] != nil
+//@   allocates iface
+//@   assigns nothing
+//@   ensures [an_empty_index_is_an_error] len(t.tipIndex) == 0 ==> result1 != nil
+//@   ensures [an_unknown_name_is_an_error] !has(t.tipIndex, name) ==> result1 != nil
+//@   ensures [otherwise_the_position_recorded_on_the_tip_of_that_name] len(t.tipIndex) != 0 && has(t.tipIndex, name) ==> result1 == nil && result0 == t.tipIndex[name].tipid
+//@ func (*tree.Tree).ExistsTip
+//@   requires t != nil
+//@   allocates iface
+//@   assigns nothing
+//@   ensures [an_empty_index_is_an_error] len(t.tipIndex) == 0 ==> result1 != nil && !result0
+//@   ensures [otherwise_exactly_membership_in_the_name_index] len(t.tipIndex) != 0 ==> result1 == nil && result0 == has(t.tipIndex, name)
+//@ func (*tree.Tree).NewEdge
+//@   allocates Edge, []string
+//@   assigns nothing
+//@   ensures [a_fresh_branch_with_every_value_absent] result != nil && fresh(result) && result.length == -1.0 && result.support == -1.0 && result.pvalue == -1.0 && result.id == -1 && len(result.comment) == 0 && result.left == nil && result.right == nil && result.bitset == nil
+
+// One-line accessors of branches and nodes, stated exactly (every property that reads or writes a value goes through
+// them).  `flag inline`: callers keep executing the body at the call site; the contract is verified on its own and is
+// part of the dependencies of every caller.
+
+//@ func (*tree.Edge).Length
+//@   flag inline
+//@   requires e != nil
+//@   assigns nothing
+//@   ensures [the_value_as_it_stands] result == e.length
+
+//@ func (*tree.Edge).Support
+//@   flag inline
+//@   requires e != nil
+//@   assigns nothing
+//@   ensures [the_value_as_it_stands] result == e.support
+
+//@ func (*tree.Edge).PValue
+//@   flag inline
+//@   requires e != nil
+//@   assigns nothing
+//@   ensures [the_value_as_it_stands] result == e.pvalue
+
+//@ func (*tree.Edge).Right
+//@   flag inline
+//@   requires e != nil
+//@   assigns nothing
+//@   ensures [the_value_as_it_stands] result == e.right
+
+//@ func (*tree.Edge).Left
+//@   flag inline
+//@   requires e != nil
+//@   assigns nothing
+//@   ensures [the_value_as_it_stands] result == e.left
+
+//@ func (*tree.Edge).Bitset
+//@   flag inline
+//@   requires e != nil
+//@   assigns nothing
+//@   ensures [the_value_as_it_stands] result == e.bitset
+
+//@ func (*tree.Edge).Id
+//@   flag inline
+//@   requires e != nil
+//@   assigns nothing
+//@   ensures [the_value_as_it_stands] result == e.id
+
+//@ func (*tree.Edge).NumTipsRight
+//@   flag inline
+//@   requires e != nil
+//@   assigns nothing
+//@   ensures [the_value_as_it_stands] result == e.ntaxright
+
+//@ func (*tree.Edge).NumTipsLeft
+//@   flag inline
+//@   requires e != nil
+//@   assigns nothing
+//@   ensures [the_value_as_it_stands] result == e.ntaxleft
+
+//@ func (*tree.Edge).SetLength
+//@   flag inline
+//@   requires e != nil
+//@   assigns e.length
+//@   ensures [the_value_given_is_the_value_stored] e.length == length
+
+//@ func (*tree.Edge).SetSupport
+//@   flag inline
+//@   requires e != nil
+//@   assigns e.support
+//@   ensures [the_value_given_is_the_value_stored] e.support == support
+
+//@ func (*tree.Edge).SetPValue
+//@   flag inline
+//@   requires e != nil
+//@   assigns e.pvalue
+//@   ensures [the_value_given_is_the_value_stored] e.pvalue == pval
+
+//@ func (*tree.Edge).SetId
+//@   flag inline
+//@   requires e != nil
+//@   assigns e.id
+//@   ensures [the_value_given_is_the_value_stored] e.id == id
+
+//@ func (*tree.Edge).setLeft
+//@   flag inline
+//@   requires e != nil
+//@   assigns e.left
+//@   ensures [the_value_given_is_the_value_stored] e.left == left
+
+//@ func (*tree.Edge).setRight
+//@   flag inline
+//@   requires e != nil
+//@   assigns e.right
+//@   ensures [the_value_given_is_the_value_stored] e.right == right
+
+//@ func (*tree.Edge).Inverse
+//@   flag inline
+//@   requires e != nil
+//@   assigns e.left, e.right
+//@   ensures [the_two_ends_change_places] e.left == old(e.right) && e.right == old(e.left)
+
+//@ func (*tree.Node).Name
+//@   flag inline
+//@   requires n != nil
+//@   assigns nothing
+//@   ensures [the_value_as_it_stands] result == n.name
+
+//@ func (*tree.Node).Id
+//@   flag inline
+//@   requires n != nil
+//@   assigns nothing
+//@   ensures [the_value_as_it_stands] result == n.id
+
+//@ func (*tree.Node).TipIndex
+//@   flag inline
+//@   requires n != nil
+//@   assigns nothing
+//@   ensures [the_value_as_it_stands] result == n.tipid
+
+//@ func (*tree.Node).Nneigh
+//@   flag inline
+//@   requires n != nil
+//@   assigns nothing
+//@   ensures [the_value_as_it_stands] result == len(n.neigh)
+
+//@ func (*tree.Node).Tip
+//@   flag inline
+//@   requires n != nil
+//@   assigns nothing
+//@   ensures [the_value_as_it_stands] result == (len(n.neigh) == 1)
+
+//@ func (*tree.Node).Neigh
+//@   flag inline
+//@   requires n != nil
+//@   assigns nothing
+//@   ensures [the_value_as_it_stands] result == n.neigh
+
+//@ func (*tree.Node).Edges
+//@   flag inline
+//@   requires n != nil
+//@   assigns nothing
+//@   ensures [the_value_as_it_stands] result == n.br
+
+//@ func (*tree.Node).SetName
+//@   flag inline
+//@   requires n != nil
+//@   assigns n.name
+//@   ensures [the_value_given_is_the_value_stored] n.name == name
+
+//@ func (*tree.Node).SetId
+//@   flag inline
+//@   requires n != nil
+//@   assigns n.id
+//@   ensures [the_value_given_is_the_value_stored] n.id == id
+
+//@ func (*tree.Node).SetDepth
+//@   flag inline
+//@   requires n != nil
+//@   assigns n.depth
+//@   ensures [the_value_given_is_the_value_stored] n.depth == depth
+
+// The name -> node table used by the consensus and by the insertion of identical tips (properties C09, C15), stated exactly
+//@ func (*tree.nodeIndex).GetNode
+//@   requires ni != nil
+//@   assigns nothing
+//@   ensures [exactly_the_entry_of_that_name] result1 == has(ni.index, name) && (result1 ==> result0 == ni.index[name])
+//@ func (*tree.nodeIndex).AddNode
+//@   requires ni != nil && n != nil && ni.index != nil
+//@   assigns mapof(ni.index)
+//@   ensures [the_node_is_registered_under_its_own_name] has(ni.index, n.name) && ni.index[n.name] == n
+//@   ensures [every_other_entry_is_kept] forall s string :: {has(ni.index, s)} {ni.index[s]} s != n.name ==> has(ni.index, s) == old(has(ni.index, s)) && (has(ni.index, s) ==> ni.index[s] == old(ni.index[s]))
